@@ -13,6 +13,7 @@ import (
 	"strings"
 
 	"github.com/robfig/soy/ast"
+	"github.com/robfig/soy/data"
 )
 
 // ---------------------------------------------------------------------------
@@ -405,4 +406,79 @@ func (m *c11Msg) rewrite(forms [][]c11Part, loc c11Locale) string {
 	}
 	sb.WriteString("{else}{nil}" + c11Src(forms[len(forms)-1]) + "{nil}{/if}")
 	return sb.String()
+}
+
+// ---------------------------------------------------------------------------
+// hand-written bundles (run before the generated ones)
+
+type c11CorpusCase struct {
+	files []srcFile
+	data  []data.Map
+	msgs  []*c11Msg
+}
+
+func c11Corpus() []c11CorpusCase {
+	ph := func(src string) c11Part { return c11Part{Ph: true, Src: src} }
+	tx := c11Text
+	sp := func(src, text string) c11Part { return c11Part{Src: src, Text: text} }
+	lb, rb := sp("{lb}", "{"), sp("{rb}", "}")
+	plural := func(expr string, one, other []c11Part) *c11Msg {
+		return &c11Msg{Plural: true, PluralExpr: expr, Cases: []c11Case{{1, one}}, Body: other}
+	}
+	flat := func(ps ...c11Part) *c11Msg { return &c11Msg{Body: ps} }
+	tag := func(m *c11Msg, t string) *c11Msg { m.Tags = append(m.Tags, t); return m }
+	mk := func(params string, ds []data.Map, msgs ...*c11Msg) c11CorpusCase {
+		var body strings.Builder
+		for i, m := range msgs {
+			m.Idx = i
+			body.WriteString(c11Token(i) + "|")
+		}
+		// every declared parameter is used (in dead code), whatever the messages use
+		use := "{if false}"
+		for _, f := range strings.Fields(params) {
+			if f != "*" && f != "@param" {
+				use += "{if $" + f + "}{/if}"
+			}
+		}
+		use += "{/if}"
+		src := "{namespace ns.c}\n\n/**\n" + params + " */\n{template .t}\n" + use + body.String() + "\n{/template}\n"
+		return c11CorpusCase{[]srcFile{{"corpus.soy", src}}, ds, msgs}
+	}
+	std := " * @param name\n * @param n\n * @param a\n * @param rec\n"
+	d := func(n int64) data.Map {
+		return data.Map{"name": data.String("Bob & <b>"), "n": data.Int(n), "a": data.Int(3),
+			"rec": data.Map{"a": data.Int(7), "b": data.String("x"), "c": data.List{data.Int(1)}}}
+	}
+	nums := []data.Map{d(1), d(2), d(5), d(21), d(11), d(0), d(-1), d(22), d(101)}
+	var r []c11CorpusCase
+	// what works: tags, repeated and colliding names, directives, every plural class of ja/en/ru
+	r = append(r, mk(std, nums,
+		flat(tx("Hello "), ph("{$name}"), tx(", you have "), ph("{$n}"), tx(" "), ph("<b>"), tx("new"), ph("</b>"), tx(" messages"), ph("<br/>")),
+		flat(ph("{$a}"), ph("{$rec.a}"), ph("{$name}"), ph("{$name|noAutoescape}"), ph("{$a}"), tx(" \"quoted\" back\\slash é ")),
+		flat(ph("<a href=\"x\">"), ph("{$name}"), ph("</a>"), ph("<a href=\"y\">"), tx("y"), ph("</a>")),
+		plural("$n", []c11Part{tx("one item for "), ph("{$name}")}, []c11Part{ph("{$n}"), tx(" items for "), ph("{$name}")}),
+		plural("$n + 20", []c11Part{ph("<b>"), tx("one"), ph("</b>")}, []c11Part{ph("{$n + 20}"), tx(" of "), ph("{$a}")}),
+		flat(lb, tx("x"), rb, tx(" "), rb, tx("K"), lb, tx(" "), lb, ph("{$name}"), rb, sp("{sp}", " "), sp("{nil}", ""), sp("{\\n}", "\n"), sp("{\\t}", "\t"), tx("end")),
+	))
+	// M3: raw text that reads as a placeholder
+	r = append(r, mk(std, nums[:2], flat(tx("a"), lb, tx("X"), rb, tx(" "), ph("{$name}"))))
+	r = append(r, mk(std, nums[:2], flat(lb, tx("NAME"), rb, tx(" is "), ph("{$name}"))))
+	r = append(r, mk(std, nums[:2], plural("$n", []c11Part{tx("one")}, []c11Part{lb, tx("0"), rb, ph("{$n}")})))
+	// M4: an empty message
+	r = append(r, mk(std, nums[:2], tag(&c11Msg{}, "empty"), flat(tx("after"), ph("{$name}"))))
+	r = append(r, mk(std, nums[:2], flat(sp("{nil}", "")), flat(ph("{$n}"))))
+	// a plural nested in a plural case; plurals a PO file cannot carry
+	nested := plural("$n", []c11Part{tx("one ")}, []c11Part{ph("{$n}"), tx(" many")})
+	nested.NestedSrc = "{plural $a}{case 1}in1{default}inN{/plural}"
+	r = append(r, mk(std, nums[:3], tag(nested, "nested")))
+	r = append(r, mk(std, nums[:3], tag(&c11Msg{Plural: true, PluralExpr: "$n", Cases: []c11Case{{2, []c11Part{tx("two")}}}, Body: []c11Part{tx("other")}}, "badplural")))
+	r = append(r, mk(std, nums[:3], tag(&c11Msg{Plural: true, PluralExpr: "$n", Body: []c11Part{tx("other")}}, "badplural")))
+	r = append(r, mk(std, nums[:3], plural("$n", []c11Part{tx("one "), ph("{$name}")}, nil)))
+	r = append(r, mk(std, nums[:3], plural("$n", nil, []c11Part{ph("{$n}"), tx(" many")})))
+	// expressions that differ only in parentheses (C17)
+	r = append(r, mk(std, nums[:2], tag(flat(ph("{($a + 1) * 2}"), tx(" vs "), ph("{$a + 1 * 2}")), "parens")))
+	// names outside [A-Z0-9_]+
+	r = append(r, mk(" * @param été\n * @param n\n", []data.Map{{"été": data.String("summer"), "n": data.Int(2)}}, flat(tx("A "), ph("{$été}"), tx(" B"))))
+	r = append(r, mk(" * @param _\n * @param n\n", []data.Map{{"_": data.String("us"), "n": data.Int(2)}}, flat(tx("A "), ph("{$_}"), tx(" B"))))
+	return r
 }
